@@ -3,6 +3,7 @@ use std::collections::HashMap;
 use log::debug;
 use nalgebra::{Dyn, Matrix3, OMatrix, OVector, Vector3, U3};
 
+use super::normalizer::integral_normalizer;
 use super::point_group::PointGroup;
 use crate::base::{
     project_rotations, MoyoError, Operations, OriginShift, UnimodularLinear,
@@ -63,6 +64,23 @@ impl SpaceGroup {
                         number: entry.number,
                         hall_number,
                         transformation: UnimodularTransformation::new(trans_mat, origin_shift),
+                    });
+                }
+            }
+
+            // A requested setting may differ from the representative of its arithmetic crystal
+            // class by a change of axes that is not among the correction matrices above
+            // (e.g. unique axis c or a). Search a conjugator onto the requested setting directly.
+            if let Setting::HallNumber(_) = setting {
+                if let Some(transformation) =
+                    integral_normalizer(prim_operations, &db_prim_generators, epsilon)
+                        .into_iter()
+                        .next()
+                {
+                    return Ok(Self {
+                        number: entry.number,
+                        hall_number,
+                        transformation,
                     });
                 }
             }
